@@ -817,3 +817,552 @@ Proof.
   - destruct (find_mod k (mods t)) as [m|]; [|split; [exact Q|apply same_but_refl]].
     apply hci_loop_QI; [exact IH|exact Q].
 Qed.
+
+(* ------------------------------------------------------------------------------------------------ *)
+(* lys_set_features                                                                                 *)
+(* ------------------------------------------------------------------------------------------------ *)
+Lemma map_on_same (p : feat -> bool) fs :
+  map (fun f => mkFeat (f_name f) (f_deps f) (p f)) fs = fs -> forallb (fun f => Bool.eqb (f_on f) (p f)) fs = true.
+Proof.
+  induction fs as [|f fs IH]; cbn [map forallb]; [reflexivity|].
+  intros H. inversion H as [[H1 H2]]. rewrite H2. rewrite (IH H2). destruct f as [n d o]. cbn in *.
+  inversion H1 as [Ho]. rewrite <- Ho at 1. rewrite Bool.eqb_reflx. reflexivity.
+Qed.
+
+(* LY_SUCCESS of lys_set_features means a bit changed *)
+Lemma set_features_changed fs sel fs' : set_features fs sel = SfOk fs' -> fs' <> fs.
+Proof.
+  unfold set_features. destruct sel as [| |l].
+  - discriminate.
+  - destruct (forallb f_on fs) eqn:E; [discriminate|]. intros H. inversion H; subst. intros Heq.
+    apply map_on_same in Heq.
+    assert (Ht : forallb f_on fs = true).
+    { rewrite forallb_forall in Heq. apply forallb_forall. intros f Hf. specialize (Heq f Hf).
+      apply Bool.eqb_prop in Heq. exact Heq. }
+    congruence.
+  - destruct l as [|n l].
+    + destruct (existsb f_on fs) eqn:E; [|discriminate]. intros H. inversion H; subst. intros Heq.
+      apply map_on_same in Heq. apply existsb_exists in E. destruct E as [f [Hf Hon]].
+      rewrite forallb_forall in Heq. specialize (Heq f Hf). rewrite Hon in Heq. discriminate.
+    + destruct (negb (forallb (fun n0 => feat_exists n0 fs) (n :: l))); [discriminate|].
+      destruct (forallb (fun f => Bool.eqb (f_on f) (existsb (N.eqb (f_name f)) (n :: l))) fs) eqn:E; [discriminate|].
+      intros H. inversion H; subst. intros Heq.
+      apply (map_on_same (fun f => existsb (N.eqb (f_name f)) (n :: l))) in Heq. cbv beta in Heq.
+      rewrite E in Heq. discriminate.
+Qed.
+
+(* ------------------------------------------------------------------------------------------------ *)
+(* _lys_set_implemented                                                                             *)
+(* ------------------------------------------------------------------------------------------------ *)
+Definition nrm_B (m : modl) : modl := set_tc false (set_comp None (set_impl false (set_feats [] m))).
+
+Inductive si_case (t : state) (k : key) (sel : fsel) : state * bool -> Prop :=
+| SiFail : si_case t k sel (t, false)
+| SiSame : si_case t k sel (t, true)
+| SiFeat m fs : find_mod k (mods t) = Some m -> m_impl m = true -> set_features (m_feats m) sel = SfOk fs ->
+    si_case t k sel (upd_s k (fun m => set_tc true (set_feats fs m)) t, true)
+| SiImpl m fs : find_mod k (mods t) = Some m -> m_impl m = false ->
+    (set_features (m_feats m) sel = SfOk fs \/ fs = m_feats m) ->
+    si_case t k sel
+      (fst (has_compiled_import_r (S (length (mods t)))
+              (with_implementing (implementing t ++ [k])
+                 (upd_s k (fun m => set_tc true (set_impl true (set_feats fs m))) t)) k), true).
+
+Lemma let_fst_true {A B} (x : A * B) : (let '(a, _) := x in (a, true)) = (fst x, true).
+Proof. destruct x; reflexivity. Qed.
+
+Lemma set_implemented_cases t k sel : si_case t k sel (set_implemented t k sel).
+Proof.
+  unfold set_implemented. destruct (find_mod k (mods t)) as [m|] eqn:F; [|constructor].
+  destruct (m_impl m) eqn:Ei.
+  - destruct (set_features (m_feats m) sel) as [fs| |] eqn:Es; try constructor.
+    eapply SiFeat; eassumption.
+  - destruct (get_implemented (m_name m) (mods t)); [constructor|].
+    destruct (set_features (m_feats m) sel) as [fs| |] eqn:Es; [| |constructor].
+    + rewrite let_fst_true. cbn [upd_s with_mods mods with_implementing implementing]. rewrite upd_length.
+      eapply (SiImpl t k sel m fs); [exact F|exact Ei|left; exact Es].
+    + rewrite let_fst_true. cbn [upd_s with_mods mods with_implementing implementing]. rewrite upd_length.
+      eapply (SiImpl t k sel m (m_feats m)); [exact F|exact Ei|right; reflexivity].
+Qed.
+
+Lemma qrel_mono imp D imp' D' m m' :
+  qrel imp D m m' -> incl imp imp' -> incl D D' -> (forall k, In k imp' -> ~ In k imp -> k <> mkey m) ->
+  qrel imp' D' m m'.
+Proof.
+  intros Q Hi Hd Hn. destruct Q as [Q1 Q2 Q3 Q4 Q5 Q6 Q7 Q8 Q9 Q10]. constructor; try assumption.
+  - intros H. destruct (Q7 H) as [H'|H']; [left; exact H'|right; apply Hi; exact H'].
+  - intros H. destruct (in_dec key_dec (mkey m) imp) as [H'|H']; [apply Q8; exact H'|].
+    exfalso. apply (Hn _ H H'). reflexivity.
+  - destruct Q10 as [H|[[H1 H2]|H]]; [left; exact H|right; left; split; [exact H1|apply Hd; exact H2]|
+                                          right; right; apply Hi; exact H].
+Qed.
+
+Lemma QI_mono_D s imp D D' t : QI s imp D t -> incl D D' -> QI s imp D' t.
+Proof.
+  intros Q Hd. destruct Q as [Q1 Q2 Q3 Q4 Q5 Q6]. constructor; try assumption.
+  eapply Forall2_impl; [|exact Q5]. intros m m' Hr. eapply qrel_mono; [exact Hr|apply incl_refl|exact Hd|].
+  intros k H1 H2. contradiction.
+Qed.
+
+(* lys_implement: the module becomes implemented, marked, gets its features, and is recorded in implementing *)
+Lemma QI_implement s D t k m fs :
+  QI s [] D t -> find_mod k (mods t) = Some m -> m_impl m = false ->
+  QI s [k] D (with_implementing (implementing t ++ [k])
+                (upd_s k (fun m => set_tc true (set_impl true (set_feats fs m))) t)).
+Proof.
+  intros Q F Hi. pose proof (qi_nodup _ _ _ _ Q) as Hnd.
+  constructor; cbn [with_implementing explicit creating implementing mods].
+  - apply (qi_expl _ _ _ _ Q).
+  - cbn [upd_s with_mods mods]. rewrite upd_length. apply (qi_len _ _ _ _ Q).
+  - change (creating t = keys (news_of s (upd_s k (fun m0 => set_tc true (set_impl true (set_feats fs m0))) t))).
+    rewrite news_upd_s, keys_upd by reflexivity. apply (qi_creating _ _ _ _ Q).
+  - cbn [upd_s with_mods mods]. rewrite keys_upd by reflexivity. exact Hnd.
+  - change (Forall2 (qrel [k] D) (mods s) (olds_of s (upd_s k (fun m0 => set_tc true (set_impl true (set_feats fs m0))) t))).
+    rewrite olds_upd_s.
+    assert (F2 : Forall2 (fun a b => In b (olds_of s t) /\ qrel [] D a b) (mods s) (olds_of s t)).
+    { pose proof (qi_olds _ _ _ _ Q) as F0. clear -F0. induction F0 as [|x y l l' H F0 IH]; constructor.
+      - split; [left; reflexivity|exact H].
+      - eapply Forall2_impl; [|exact IH]. cbn. intros a b [H1 H2]. split; [right; exact H1|exact H2]. }
+    clear -F2 F Hi Hnd. induction F2 as [|a b l l' [Hin Hr] F2 IH]; cbn [upd map]; constructor; [|exact IH].
+    destruct (key_eqb (mkey b) k) eqn:E.
+    + apply key_eqb_eq in E.
+      assert (b = m) by (eapply find_mod_is; [exact Hnd|exact F|apply (In_olds s t); exact Hin|exact E]). subst b.
+      destruct Hr as [Q1 Q2 Q3 Q4 Q5 Q6 Q7 Q8 Q9 Q10]. constructor; cbn; try assumption.
+      * intros _. reflexivity.
+      * intros _. right. left. congruence.
+      * intros _. destruct (m_impl a) eqn:Ea; [|reflexivity]. rewrite (Q6 eq_refl) in Hi. discriminate.
+      * intros _. reflexivity.
+      * right. right. left. congruence.
+    + apply key_eqb_neq in E. eapply qrel_mono; [exact Hr|intros x []|apply incl_refl|].
+      intros k' [<-|[]] _ Heq. apply E. rewrite Heq. apply (q_key _ _ _ _ Hr).
+  - rewrite (qi_imp _ _ _ _ Q). reflexivity.
+Qed.
+
+Lemma same_but_implementing N t l : same_but N t (with_implementing l t).
+Proof. constructor; reflexivity. Qed.
+
+Lemma same_but_weaken (N N' : modl -> modl) t t' :
+  (forall m, N' m = N' (N m)) -> same_but N t t' -> same_but N' t t'.
+Proof.
+  intros H [E1 E2 E3]. constructor; [exact E1|exact E2|].
+  assert (E : forall l, map N' l = map N' (map N l)).
+  { intros l. rewrite map_map. apply map_ext. exact H. }
+  rewrite E, E3, <- E. reflexivity.
+Qed.
+
+Lemma hci_loop_same_but rec imps :
+  (forall t k, same_but no_tc t (fst (rec t k))) ->
+  forall t, same_but no_tc t (fst (hci_loop rec imps t)).
+Proof.
+  intros Hrec. induction imps as [|ik imps IH]; intros t; cbn [hci_loop]; [apply same_but_refl|].
+  destruct (find_mod ik (mods t)) as [im|]; [|apply IH].
+  destruct (negb (m_impl im)); [apply IH|]. destruct (negb (m_tc im)).
+  - cbn [fst]. apply same_but_upd. intros m; destruct m; reflexivity.
+  - pose proof (Hrec t ik) as S1. destruct (rec t ik) as [s1 stop]. cbn [fst] in S1.
+    destruct stop; cbn [fst]; [exact S1|]. eapply same_but_trans; [exact S1|apply IH].
+Qed.
+Lemma has_compiled_import_r_same_but fuel : forall t k, same_but no_tc t (fst (has_compiled_import_r fuel t k)).
+Proof.
+  induction fuel as [|fuel IH]; intros t k; cbn [has_compiled_import_r]; [apply same_but_out_of_fuel|].
+  destruct (find_mod k (mods t)); [|apply same_but_refl]. apply hci_loop_same_but. exact IH.
+Qed.
+
+(* _lys_set_implemented changes implemented / features / to_compile at most *)
+Lemma set_implemented_same_but t k sel : same_but nrm_B t (fst (set_implemented t k sel)).
+Proof.
+  destruct (set_implemented_cases t k sel) as [| |m fs F Hi Hs|m fs F Hi Hs]; cbn [fst]; try apply same_but_refl.
+  - apply same_but_upd. intros x. destruct x; reflexivity.
+  - eapply (same_but_trans nrm_B _ (with_implementing (implementing t ++ [k])
+                                       (upd_s k (fun m => set_tc true (set_impl true (set_feats fs m))) t))).
+    + eapply (same_but_trans nrm_B _ (upd_s k (fun m => set_tc true (set_impl true (set_feats fs m))) t));
+        [apply same_but_upd; intros x; destruct x; reflexivity|apply same_but_implementing].
+    + apply (same_but_weaken no_tc nrm_B); [intros x; destruct x; reflexivity|apply has_compiled_import_r_same_but].
+Qed.
+
+(* ------------------------------------------------------------------------------------------------ *)
+(* lys_unres_dep_sets_create only sets to_compile, and only on implemented modules                  *)
+(* ------------------------------------------------------------------------------------------------ *)
+Lemma qrel_mark imp D m m' : qrel imp D m m' -> qrel imp D m (if m_impl m' then set_tc true m' else m').
+Proof.
+  intros Q. destruct (m_impl m') eqn:E; [apply qrel_set_tc_true; assumption|exact Q].
+Qed.
+
+Lemma fold_mark_QI s imp D ds : forall t, QI s imp D t ->
+  QI s imp D (fold_left (fun s k => upd_s k (fun m => if m_impl m then set_tc true m else m) s) ds t).
+Proof.
+  induction ds as [|k ds IH]; intros t Q; cbn [fold_left]; [exact Q|]. apply IH.
+  apply QI_upd; [exact Q|intros m; destruct (m_impl m); reflexivity|]. intros m m' _ _ Hr. apply qrel_mark. exact Hr.
+Qed.
+Lemma fold_mark_same_but ds : forall t,
+  same_but no_tc t (fold_left (fun s k => upd_s k (fun m => if m_impl m then set_tc true m else m) s) ds t).
+Proof.
+  induction ds as [|k ds IH]; intros t; cbn [fold_left]; [apply same_but_refl|].
+  eapply same_but_trans; [|apply IH]. apply same_but_upd. intros m. destruct m as [? ? [] ? ? ? ? ? ? ? ? ? ? ?]; reflexivity.
+Qed.
+
+Lemma mark_depset_QI s imp D ds t : QI s imp D t -> QI s imp D (mark_depset ds t).
+Proof. intros Q. unfold mark_depset. destruct (existsb _ ds); [apply fold_mark_QI|]; exact Q. Qed.
+Lemma mark_depset_same_but ds t : same_but no_tc t (mark_depset ds t).
+Proof. unfold mark_depset. destruct (existsb _ ds); [apply fold_mark_same_but|apply same_but_refl]. Qed.
+
+Lemma dep_sets_loop_QI s imp D fuel target : forall t cs main, QI s imp D t ->
+  QI s imp D (fst (dep_sets_loop fuel t target cs main)) /\ same_but no_tc t (fst (dep_sets_loop fuel t target cs main)).
+Proof.
+  induction fuel as [|fuel IH]; intros t cs main Q; cbn [dep_sets_loop].
+  - cbn [fst]. split; [apply QI_out_of_fuel; exact Q|apply same_but_out_of_fuel].
+  - destruct cs as [|c0 cs']; [split; [exact Q|apply same_but_refl]|].
+    destruct (dep_dfs _ t _ _) as [[[cs1 ds] aux] oof].
+    set (t1 := if oof then out_of_fuel t else t).
+    assert (Q1 : QI s imp D t1) by (unfold t1; destruct oof; [apply QI_out_of_fuel|]; exact Q).
+    assert (S1 : same_but no_tc t t1) by (unfold t1; destruct oof; [apply same_but_out_of_fuel|apply same_but_refl]).
+    pose proof (mark_depset_QI s imp D ds t1 Q1) as Q2. pose proof (mark_depset_same_but ds t1) as S2.
+    destruct target as [k|].
+    + cbn [fst]. split; [exact Q2|eapply same_but_trans; eassumption].
+    + destruct (IH (mark_depset ds t1) cs1 (main ++ [ds]) Q2) as [Q3 S3].
+      split; [exact Q3|]. eapply same_but_trans; [exact S1|]. eapply same_but_trans; eassumption.
+Qed.
+
+Lemma dep_sets_create_QI s imp D t target : QI s imp D t ->
+  QI s imp D (fst (dep_sets_create t target)) /\ same_but no_tc t (fst (dep_sets_create t target)).
+Proof.
+  intros Q. unfold dep_sets_create. destruct (create_single _ t 0 _ []) as [cs1 main1].
+  destruct target as [k|].
+  - destruct (negb (kmem k cs1)); [split; [exact Q|apply same_but_refl]|]. apply dep_sets_loop_QI. exact Q.
+  - apply dep_sets_loop_QI. exact Q.
+Qed.
+
+(* ------------------------------------------------------------------------------------------------ *)
+(* compilation                                                                                      *)
+(* ------------------------------------------------------------------------------------------------ *)
+Definition no_comp (m : modl) : modl := set_comp None m.
+
+Lemma find_mod_map_eq (N : modl -> modl) k : (forall m, mkey (N m) = mkey m) ->
+  forall l l', map N l' = map N l -> forall m', find_mod k l' = Some m' ->
+  exists m, find_mod k l = Some m /\ N m' = N m.
+Proof.
+  intros HN. induction l as [|a l IH]; intros [|b l'] H m' F; cbn in H; try discriminate H.
+  - unfold find_mod in F. cbn in F. discriminate F.
+  - inversion H as [[H1 H2]]. unfold find_mod in *. cbn [find] in *.
+    assert (Ek : mkey b = mkey a) by (rewrite <- (HN b), <- (HN a), H1; reflexivity).
+    rewrite Ek in F. destruct (key_eqb (mkey a) k).
+    + inversion F; subst. exists a. split; [reflexivity|exact H1].
+    + apply (IH l' H2 m' F).
+Qed.
+
+Lemma same_but_find N t t' k m' : (forall m, mkey (N m) = mkey m) -> same_but N t t' ->
+  find_mod k (mods t') = Some m' -> exists m, find_mod k (mods t) = Some m /\ N m' = N m.
+Proof. intros HN S F. eapply find_mod_map_eq; [exact HN|apply (sb_mods _ _ _ S)|exact F]. Qed.
+Lemma same_but_find_l N t t' k m : (forall m, mkey (N m) = mkey m) -> same_but N t t' ->
+  find_mod k (mods t) = Some m -> exists m', find_mod k (mods t') = Some m' /\ N m' = N m.
+Proof.
+  intros HN S F. destruct (find_mod_map_eq N k HN (mods t') (mods t) (eq_sym (sb_mods _ _ _ S)) m F) as [m' [F' E]].
+  exists m'. split; [exact F'|symmetry; exact E].
+Qed.
+
+Lemma same_but_sym N t t' : same_but N t t' -> same_but N t' t.
+Proof. intros [E1 E2 E3]. constructor; congruence. Qed.
+
+(* the abstract compiled schema only reads features, imports and keys *)
+Lemma snapshot_ext l l' m m' :
+  m_feats m' = m_feats m -> m_imps m' = m_imps m ->
+  (forall ik, In ik (m_imps m) ->
+     match find_mod ik l, find_mod ik l' with
+     | Some a, Some b => m_feats b = m_feats a
+     | None, None => True
+     | _, _ => False
+     end) ->
+  snapshot l' m' = snapshot l m /\ snapshot_all l' m' = snapshot_all l m.
+Proof.
+  intros Hf Hi Hfind. unfold snapshot, snapshot_all. rewrite Hf, Hi.
+  assert (E : forall (g : list feat -> list N) (ik : nat * key), In ik (combine (seq 0 (length (m_imps m))) (m_imps m)) ->
+          match find_mod (snd ik) l' with
+          | Some im => map (fun n => (N.of_nat (S (fst ik)), n)) (g (m_feats im))
+          | None => []
+          end =
+          match find_mod (snd ik) l with
+          | Some im => map (fun n => (N.of_nat (S (fst ik)), n)) (g (m_feats im))
+          | None => []
+          end).
+  { intros g [i ik] Hin. apply in_combine_r in Hin. cbn [fst snd]. specialize (Hfind ik Hin).
+    destruct (find_mod ik l), (find_mod ik l'); try contradiction; [rewrite Hfind|]; reflexivity. }
+  split; f_equal; f_equal.
+  - apply map_ext_in. intros ik Hin. apply (E enabled_names ik Hin).
+  - apply map_ext_in. intros ik Hin. apply (E (map f_name) ik Hin).
+Qed.
+
+Lemma same_but_snapshot t t' m : same_but no_tc_comp t t' ->
+  snapshot (mods t') m = snapshot (mods t) m /\ snapshot_all (mods t') m = snapshot_all (mods t) m.
+Proof.
+  intros S. apply snapshot_ext; try reflexivity. intros ik _.
+  destruct (find_mod ik (mods t)) as [a|] eqn:Fa.
+  - destruct (same_but_find_l no_tc_comp t t' ik a) as [b [Fb E]]; [intros x; destruct x; reflexivity|exact S|exact Fa|].
+    rewrite Fb. destruct a, b. unfold no_tc_comp, set_tc, set_comp in E. cbn in E. inversion E. reflexivity.
+  - destruct (find_mod ik (mods t')) as [b|] eqn:Fb; [|exact I].
+    destruct (same_but_find no_tc_comp t t' ik b) as [a [Fa' _]]; [intros x; destruct x; reflexivity|exact S|exact Fb|].
+    congruence.
+Qed.
+
+Definition all_tc (t : state) (ks : list key) : Prop :=
+  forall k m, In k ks -> find_mod k (mods t) = Some m -> m_tc m = true.
+
+Lemma qrel_set_comp imp D m m' c :
+  m_tc m' = true -> In (mkey m) D -> qrel imp D m m' -> qrel imp D m (set_comp c m').
+Proof.
+  intros Ht Hd [Q1 Q2 Q3 Q4 Q5 Q6 Q7 Q8 Q9 Q10]. constructor; cbn; try assumption.
+  right. left. split; assumption.
+Qed.
+
+Lemma QI_set_comp s imp D t k m c :
+  QI s imp D t -> find_mod k (mods t) = Some m -> m_tc m = true -> In k D -> QI s imp D (upd_s k (set_comp c) t).
+Proof.
+  intros Q F Ht Hd. apply QI_upd; [exact Q|reflexivity|]. intros a b Hin Hk Hr.
+  assert (b = m) by (eapply find_mod_is; [apply (qi_nodup _ _ _ _ Q)|exact F|exact Hin|exact Hk]). subst b.
+  apply qrel_set_comp; [exact Ht| |exact Hr]. rewrite <- (q_key _ _ _ _ Hr), Hk. exact Hd.
+Qed.
+
+Lemma no_comp_weaken t t' : same_but no_comp t t' -> same_but no_tc_comp t t'.
+Proof. apply same_but_weaken. intros m. destruct m; reflexivity. Qed.
+
+Lemma all_tc_same t t' ks : same_but no_comp t t' -> all_tc t ks -> all_tc t' ks.
+Proof.
+  intros S H k m' Hin F.
+  destruct (same_but_find no_comp t t' k m') as [m [F0 E]]; [intros x; destruct x; reflexivity|exact S|exact F|].
+  specialize (H k m Hin F0). rewrite <- H. exact (f_equal m_tc E).
+Qed.
+
+Lemma compile_mods_QI s imp D : forall ds t done,
+  QI s imp D t -> incl ds D -> all_tc t done ->
+  let r := compile_mods ds t done in
+  QI s imp D (fst (fst r)) /\ same_but no_comp t (fst (fst r)) /\ all_tc (fst (fst r)) (snd (fst r)) /\
+  incl (snd (fst r)) (done ++ ds) /\
+  (snd r = true -> forall k m, In k ds -> find_mod k (mods t) = Some m -> m_tc m = true -> In k (snd (fst r))) /\
+  incl done (snd (fst r)).
+Proof.
+  induction ds as [|k ds IH]; intros t done Q Hd Ht; cbn [compile_mods].
+  - cbn [fst snd]. refine (conj Q (conj _ (conj Ht (conj _ (conj _ _))))).
+    + apply same_but_refl.
+    + rewrite app_nil_r. apply incl_refl.
+    + intros _ k m [].
+    + apply incl_refl.
+  - assert (Hd' : incl ds D) by (intros x Hx; apply Hd; right; exact Hx).
+    destruct (find_mod k (mods t)) as [m|] eqn:F.
+    2:{ destruct (IH t done Q Hd' Ht) as [H1 [H2 [H3 [H4 [H5 H6]]]]].
+        refine (conj H1 (conj H2 (conj H3 (conj _ (conj _ H6))))).
+        - intros x Hx. apply H4 in Hx. apply in_app_or in Hx. apply in_or_app. destruct Hx; [left|right; right]; assumption.
+        - intros Hok k' m' [<-|Hin] F' Htc; [congruence|]. apply (H5 Hok k' m' Hin F' Htc). }
+    destruct (negb (m_tc m)) eqn:Etc.
+    { destruct (IH t done Q Hd' Ht) as [H1 [H2 [H3 [H4 [H5 H6]]]]].
+      refine (conj H1 (conj H2 (conj H3 (conj _ (conj _ H6))))).
+      - intros x Hx. apply H4 in Hx. apply in_app_or in Hx. apply in_or_app. destruct Hx; [left|right; right]; assumption.
+      - intros Hok k' m' [<-|Hin] F' Htc; [|apply (H5 Hok k' m' Hin F' Htc)].
+        rewrite F in F'. inversion F'; subst. apply negb_true_iff in Etc. congruence. }
+    apply negb_false_iff in Etc.
+    assert (HkD : In k D) by (apply Hd; left; reflexivity).
+    set (t1 := add_ev (EvCompile k) (upd_s k (set_comp None) t)).
+    assert (Q1 : QI s imp D t1) by (apply QI_add_ev; eapply QI_set_comp; eassumption).
+    assert (S1 : same_but no_comp t t1).
+    { eapply same_but_trans; [apply same_but_upd|apply same_but_add_ev]. intros x; destruct x; reflexivity. }
+    destruct (node_fault m).
+    { cbn [fst snd]. refine (conj Q1 (conj S1 (conj _ (conj _ (conj _ _))))).
+      - eapply all_tc_same; eassumption.
+      - apply incl_appl. apply incl_refl.
+      - discriminate.
+      - apply incl_refl. }
+    set (t2 := upd_s k (set_comp (Some (snapshot_all (mods t1) m))) t1).
+    assert (F1 : find_mod k (mods t1) = Some (set_comp None m)).
+    { unfold t1. cbn [add_ev mods upd_s with_mods]. apply find_mod_upd_same; [reflexivity|exact F]. }
+    assert (Q2 : QI s imp D t2) by (eapply QI_set_comp; [exact Q1|exact F1|exact Etc|exact HkD]).
+    assert (S2 : same_but no_comp t t2).
+    { eapply same_but_trans; [exact S1|]. apply same_but_upd. intros x; destruct x; reflexivity. }
+    assert (Ht2 : all_tc t2 (done ++ [k])).
+    { intros k' m' Hin F'. apply in_app_or in Hin. destruct Hin as [Hin|[<-|[]]].
+      - eapply (all_tc_same t t2 done S2 Ht); eassumption.
+      - destruct (same_but_find no_comp t t2 k m') as [m0 [F0 E]]; [intros x; destruct x; reflexivity|exact S2|exact F'|].
+        rewrite F in F0. inversion F0; subst. rewrite <- Etc. exact (f_equal m_tc E). }
+    destruct (IH t2 (done ++ [k]) Q2 Hd' Ht2) as [H1 [H2 [H3 [H4 [H5 H6]]]]].
+    refine (conj H1 (conj _ (conj H3 (conj _ (conj _ _))))).
+    + eapply same_but_trans; eassumption.
+    + intros x Hx. apply H4 in Hx. rewrite <- app_assoc in Hx. exact Hx.
+    + intros Hok k' m' [<-|Hin] F' Htc.
+      * apply H6. apply in_or_app. right. left. reflexivity.
+      * destruct (same_but_find_l no_comp t t2 k' m') as [m2 [F2 E]]; [intros x; destruct x; reflexivity|exact S2|exact F'|].
+        apply (H5 Hok k' m2 Hin F2). rewrite <- Htc. exact (f_equal m_tc E).
+    + intros x Hx. apply H6. apply in_or_app. left. exact Hx.
+Qed.
+
+Lemma prune_mods_other : forall done t k, ~ In k done ->
+  find_mod k (mods (fst (prune_mods done t))) = find_mod k (mods t).
+Proof.
+  induction done as [|k0 done IH]; intros t k Hn; cbn [prune_mods]; [reflexivity|].
+  assert (Hne : k <> k0) by (intros E; apply Hn; left; symmetry; exact E).
+  assert (Hn' : ~ In k done) by (intros H; apply Hn; right; exact H).
+  destruct (find_mod k0 (mods t)) as [m|]; [|apply IH; exact Hn'].
+  match goal with |- context [if ?c then _ else _] => destruct c end; cbn [fst].
+  - cbn [upd_s with_mods mods]. apply find_mod_upd_other; [reflexivity|exact Hne].
+  - rewrite IH by exact Hn'. cbn [upd_s with_mods mods]. apply find_mod_upd_other; [reflexivity|exact Hne].
+Qed.
+
+Definition pruned (t : state) (ks : list key) : Prop :=
+  forall k m, In k ks -> find_mod k (mods t) = Some m -> m_comp m = Some (snapshot (mods t) m).
+
+Lemma prune_mods_QI s imp D : forall done t,
+  QI s imp D t -> incl done D -> all_tc t done ->
+  let r := prune_mods done t in
+  QI s imp D (fst r) /\ same_but no_comp t (fst r) /\ (snd r = true -> pruned (fst r) done).
+Proof.
+  induction done as [|k done IH]; intros t Q Hd Ht; cbn [prune_mods].
+  - cbn [fst snd]. refine (conj Q (conj (same_but_refl _ _) _)). intros _ k m [].
+  - assert (Hd' : incl done D) by (intros x Hx; apply Hd; right; exact Hx).
+    assert (Ht' : all_tc t done) by (intros k' m' Hin; apply Ht; right; exact Hin).
+    destruct (find_mod k (mods t)) as [m|] eqn:F.
+    2:{ destruct (IH t Q Hd' Ht') as [H1 [H2 H3]]. refine (conj H1 (conj H2 _)).
+        intros Hok k' m' [<-|Hin] F'; [|apply (H3 Hok k' m' Hin F')].
+        destruct (in_dec key_dec k done) as [Hin|Hn]; [apply (H3 Hok k m' Hin F')|].
+        rewrite prune_mods_other in F' by exact Hn. congruence. }
+    assert (Etc : m_tc m = true) by (apply (Ht k m); [left; reflexivity|exact F]).
+    assert (HkD : In k D) by (apply Hd; left; reflexivity).
+    set (t1 := upd_s k (set_comp (Some (snapshot (mods t) m))) t).
+    assert (Q1 : QI s imp D t1) by (eapply QI_set_comp; eassumption).
+    assert (S1 : same_but no_comp t t1) by (apply same_but_upd; intros x; destruct x; reflexivity).
+    match goal with |- context [if ?c then _ else _] => destruct c end.
+    { cbn [fst snd]. refine (conj Q1 (conj S1 _)). discriminate. }
+    assert (Ht1 : all_tc t1 done) by (eapply all_tc_same; eassumption).
+    destruct (IH t1 Q1 Hd' Ht1) as [H1 [H2 H3]]. refine (conj H1 (conj _ _)).
+    + eapply same_but_trans; eassumption.
+    + intros Hok k' m' [<-|Hin] F'; [|apply (H3 Hok k' m' Hin F')].
+      destruct (in_dec key_dec k done) as [Hin|Hn]; [apply (H3 Hok k m' Hin F')|].
+      rewrite prune_mods_other in F' by exact Hn.
+      unfold t1 in F'. cbn [upd_s with_mods mods] in F'. rewrite (find_mod_upd_same k _ _ m) in F'; [|reflexivity|exact F].
+      inversion F'; subst m'. cbn [set_comp m_comp]. f_equal.
+      assert (S : same_but no_tc_comp t (fst (prune_mods done t1))).
+      { apply no_comp_weaken. eapply same_but_trans; eassumption. }
+      destruct (same_but_snapshot _ _ m S) as [E _]. rewrite <- E.
+      symmetry. apply snapshot_ext; try reflexivity. intros ik _. destruct (find_mod ik _); [reflexivity|exact I].
+Qed.
+
+(* a fold of updates with an idempotent function = one map *)
+Lemma fold_upd_mods g : (forall m, mkey (g m) = mkey m) -> (forall m, g (g m) = g m) ->
+  forall ds t, fold_left (fun s k => upd_s k g s) ds t
+               = with_mods (map (fun m => if kmem (mkey m) ds then g m else m) (mods t)) t.
+Proof.
+  intros Hk Hg. induction ds as [|k ds IH]; intros t; cbn [fold_left].
+  - cbn [kmem]. rewrite map_id. destruct t; reflexivity.
+  - rewrite IH. cbn [upd_s with_mods mods]. unfold with_mods. cbn. f_equal.
+    unfold upd. rewrite map_map. apply map_ext. intros m. cbn [kmem].
+    destruct (key_eqb (mkey m) k) eqn:E.
+    + rewrite Hk. rewrite (key_eqb_sym k (mkey m)), E. cbn [orb]. destruct (kmem (mkey m) ds); [apply Hg|reflexivity].
+    + rewrite (key_eqb_sym k (mkey m)), E. reflexivity.
+Qed.
+
+Lemma Forall2_map_r_in {A B} (R : A -> B -> Prop) (h : B -> B) l l' :
+  Forall2 R l l' -> (forall a b, In a l -> In b l' -> R a b -> R a (h b)) -> Forall2 R l (map h l').
+Proof.
+  intros F. induction F as [|x y l l' H F IH]; intros Hh; cbn [map]; constructor.
+  - apply Hh; [left; reflexivity|left; reflexivity|exact H].
+  - apply IH. intros a b Ha Hb. apply Hh; right; assumption.
+Qed.
+
+Definition FE (s t : state) : Prop :=
+  Forall2 (fun m m' => mkey m' = mkey m /\ m_feats m' = m_feats m) (mods s) (olds_of s t).
+
+Lemma NoDup_keys_eq l a b : NoDup (keys l) -> In a l -> In b l -> mkey a = mkey b -> a = b.
+Proof.
+  intros Hnd Ha Hb E. pose proof (find_mod_unique (mkey b) l a Hnd Ha E) as F1.
+  pose proof (find_mod_unique (mkey b) l b Hnd Hb eq_refl) as F2. congruence.
+Qed.
+
+(* the old module and the module of the current state with the same key are related *)
+Lemma partner (R : modl -> modl -> Prop) s t m0 m' :
+  Forall2 (fun a b => mkey b = mkey a /\ R a b) (mods s) (olds_of s t) -> NoDup (keys (mods t)) ->
+  In m0 (mods s) -> In m' (mods t) -> mkey m' = mkey m0 -> R m0 m'.
+Proof.
+  intros F Hnd H0 H' Hk. destruct (Forall2_In_l _ _ _ _ F H0) as [b [Hb [Hkb Hr]]].
+  assert (b = m') by (eapply NoDup_keys_eq; [exact Hnd|apply (In_olds s t); exact Hb|exact H'|congruence]).
+  subst b. exact Hr.
+Qed.
+
+Lemma QI_keyed s imp D t : QI s imp D t ->
+  Forall2 (fun a b => mkey b = mkey a /\ qrel imp D a b) (mods s) (olds_of s t).
+Proof.
+  intros Q. eapply Forall2_impl; [|apply (qi_olds _ _ _ _ Q)]. intros a b H. split; [apply (q_key _ _ _ _ H)|exact H].
+Qed.
+
+Lemma olds_same_len s t t' : length (mods t') = length (mods t) -> length (olds_of s t') = length (olds_of s t).
+Proof. intros H. unfold olds_of. rewrite !firstn_length. lia. Qed.
+
+Lemma FE_same_but s t t' : same_but no_tc_comp t t' -> FE s t -> FE s t'.
+Proof.
+  intros S F. unfold FE in *.
+  assert (E : map (fun m => (mkey m, m_feats m)) (olds_of s t') = map (fun m => (mkey m, m_feats m)) (olds_of s t)).
+  { unfold olds_of. rewrite <- !firstn_map. f_equal.
+    assert (G : forall l, map (fun m => (mkey m, m_feats m)) l = map (fun m => (mkey m, m_feats m)) (map no_tc_comp l)).
+    { intros l. rewrite map_map. apply map_ext. intros m; destruct m; reflexivity. }
+    rewrite G, (sb_mods _ _ _ S), <- G. reflexivity. }
+  assert (F1 : Forall2 (fun a b => (mkey b, m_feats b) = (mkey a, m_feats a)) (mods s) (olds_of s t)).
+  { eapply Forall2_impl; [|exact F]. cbn. intros a b [H1 H2]. congruence. }
+  apply Forall2_map_eq in F1. rewrite <- E in F1. apply Forall2_map_eq in F1.
+  eapply Forall2_impl; [|exact F1]. cbn. intros a b H. split; [exact (f_equal fst H)|exact (f_equal snd H)].
+Qed.
+
+(* the compiled schema of an old module, compiled now, is what it was *)
+Lemma old_snapshot s imp D t m0 m' :
+  wf_state s -> QI s imp D t -> FE s t -> In m0 (mods s) -> qrel imp D m0 m' -> m_feats m' = m_feats m0 ->
+  snapshot (mods t) m' = snapshot (mods s) m0.
+Proof.
+  intros W Q F H0 Hr Hf. apply snapshot_ext; [exact Hf|apply (q_imps _ _ _ _ Hr)|].
+  intros ik Hik. pose proof (wf_imps _ _ (wfs_mods _ W m0 H0) ik Hik) as Hin.
+  destruct (find_mod_some_in ik (mods s) Hin) as [a Fa]. rewrite Fa.
+  destruct (find_mod_Forall2 _ ik _ _ a F Fa) as [b [Fb Hfb]].
+  rewrite (olds_news s t), find_mod_app, Fb. exact Hfb.
+Qed.
+
+Lemma depset_r_QI s imp D ds t :
+  wf_state s -> QI s imp D t -> FE s t -> incl ds D ->
+  QI s imp D (fst (depset_r ds t)) /\ same_but no_tc_comp t (fst (depset_r ds t)).
+Proof.
+  intros W Q F Hd. unfold depset_r.
+  pose proof (compile_mods_QI s imp D ds t [] Q Hd) as H. cbv zeta in H.
+  destruct (compile_mods ds t []) as [[t1 done] ok]. cbn [fst snd] in H.
+  destruct H as [Q1 [S1 [T1 [I1 [C1 _]]]]]; [intros k m []|].
+  destruct (negb ok) eqn:Eok; [cbn [fst]; split; [exact Q1|apply no_comp_weaken; exact S1]|].
+  destruct (existsb _ done); [cbn [fst]; split; [exact Q1|apply no_comp_weaken; exact S1]|].
+  assert (Hdd : incl done D) by (intros x Hx; apply Hd; apply I1 in Hx; exact Hx).
+  pose proof (prune_mods_QI s imp D done t1 Q1 Hdd T1) as H. cbv zeta in H.
+  destruct (prune_mods done t1) as [t2 ok2]. cbn [fst snd] in H. destruct H as [Q2 [S2 P2]].
+  assert (S12 : same_but no_comp t t2) by (eapply same_but_trans; eassumption).
+  destruct (negb ok2) eqn:Eok2; [cbn [fst]; split; [exact Q2|apply no_comp_weaken; exact S12]|].
+  apply negb_false_iff in Eok, Eok2. cbn [fst].
+  rewrite (fold_upd_mods (set_tc false)) by reflexivity.
+  split.
+  2:{ eapply same_but_trans; [apply no_comp_weaken; exact S12|]. constructor; try reflexivity.
+      cbn [with_mods mods]. rewrite map_map. apply map_ext. intros m. destruct (kmem (mkey m) ds); destruct m; reflexivity. }
+  assert (F2 : FE s t2) by (eapply FE_same_but; [apply no_comp_weaken; exact S12|exact F]).
+  set (h := fun m => if kmem (mkey m) ds then set_tc false m else m).
+  assert (Hhk : forall m, mkey (h m) = mkey m) by (intros m; unfold h; destruct (kmem (mkey m) ds); reflexivity).
+  constructor; cbn [with_mods explicit creating implementing mods].
+  - apply (qi_expl _ _ _ _ Q2).
+  - rewrite map_length. apply (qi_len _ _ _ _ Q2).
+  - unfold news_of. cbn [with_mods mods]. rewrite skipn_map. fold (news_of s t2). unfold keys. rewrite map_map.
+    rewrite (map_ext _ mkey Hhk). apply (qi_creating _ _ _ _ Q2).
+  - unfold keys. rewrite map_map. rewrite (map_ext _ mkey Hhk). apply (qi_nodup _ _ _ _ Q2).
+  - unfold olds_of. cbn [with_mods mods]. rewrite firstn_map. fold (olds_of s t2).
+    apply Forall2_map_r_in; [apply (qi_olds _ _ _ _ Q2)|]. intros m0 m' H0 H' Hr. unfold h.
+    destruct (kmem (mkey m') ds) eqn:Ek; [|exact Hr]. apply kmem_In in Ek.
+    pose proof Hr as [R1 R2 R3 R4 R5 R6 R7 R8 R9 R10]. constructor; cbn; try assumption; [discriminate|].
+    destruct R10 as [Hc|[[Htc HD]|Hi]]; [left; exact Hc| |right; right; exact Hi].
+    destruct (in_dec key_dec (mkey m0) imp) as [Hi|Hni]; [right; right; exact Hi|]. left.
+    assert (Hin' : In m' (mods t2)) by (apply (In_olds s t2); exact H').
+    assert (Fm : find_mod (mkey m') (mods t2) = Some m') by (apply find_mod_unique; [apply (qi_nodup _ _ _ _ Q2)|exact Hin'|reflexivity]).
+    (* it was marked when the round started, so it was compiled and pruned in this round *)
+    destruct (same_but_find no_comp t t2 (mkey m') m') as [mt [Ft Et]]; [intros x; destruct x; reflexivity|exact S12|exact Fm|].
+    assert (Htct : m_tc mt = true).
+    { rewrite <- Htc. exact (eq_sym (f_equal m_tc Et)). }
+    pose proof (C1 Eok (mkey m') mt Ek Ft Htct) as Hdone.
+    rewrite (P2 Eok2 (mkey m') m' Hdone Fm).
+    assert (Hfe : m_feats m' = m_feats m0).
+    { apply (partner (fun a b => m_feats b = m_feats a) s t2 m0 m' F2 (qi_nodup _ _ _ _ Q2) H0 Hin' R1). }
+    rewrite (old_snapshot s imp D t2 m0 m' W Q2 F2 H0 Hr Hfe).
+    assert (Him0 : m_impl m0 = true) by (destruct (R7 (R9 Htc)) as [E|E]; [exact E|contradiction]).
+    destruct (wf_comp_impl _ _ (wfs_mods _ W m0 H0) Him0) as [E _]. symmetry. exact E.
+  - apply (qi_imp _ _ _ _ Q2).
+Qed.
